@@ -27,7 +27,8 @@ package action
 
 //@ interface Tx
 //@   method Validate
-//@     modifies vHas(arg0.State), vVal(arg0.State)
+//@     modifies vHas(arg0.State), vVal(arg0.State), sgas(arg0.State)
+//@     grants sgas(arg0.State) >= old(sgas(arg0.State))                                                     // C02.gas-monotone
 //@     grants result0 ==> validatedRaw(self, arg1.RawTx) && validatedTx(self, arg1)                        // C04.validated
 //@     ensures err == nil ==> result0                                                                       // C04.validate-ok
 //@     grants sessOpen(arg0.State) == old(sessOpen(arg0.State)) && bHas(arg0.State) == old(bHas(arg0.State)) && bVal(arg0.State) == old(bVal(arg0.State)) && wfState(arg0.State)   // C06.handler-frame
@@ -35,19 +36,23 @@ package action
 //@   method ProcessCheck
 //@     requires validatedRaw(self, arg1)                                                                   // C04.validated
 //@     requires sessOpen(arg0.State) && wfState(arg0.State)                                                // C06.session
-//@     modifies vHas(arg0.State), vVal(arg0.State)
+//@     modifies vHas(arg0.State), vVal(arg0.State), sgas(arg0.State)
+//@     grants sgas(arg0.State) >= old(sgas(arg0.State))                                                     // C02.gas-monotone
 //@     grants sessOpen(arg0.State) && bHas(arg0.State) == old(bHas(arg0.State)) && bVal(arg0.State) == old(bVal(arg0.State)) && wfState(arg0.State)   // C06.handler-frame
 //@     forbids (*storage.State).BeginTxSession (*storage.State).CommitTxSession (*storage.State).DiscardTxSession (storage.State).Write (*storage.State).Commit (*storage.State).WithoutGas (*storage.State).WithGasStore (*storage.State).LoadVersion (*storage.ChainState).Set (*storage.ChainState).Delete (*storage.ChainState).Commit   // C06.handler-frame
 //@   method ProcessDeliver
 //@     requires validatedRaw(self, arg1)                                                                   // C04.validated
 //@     requires sessOpen(arg0.State) && wfState(arg0.State)                                                // C06.session
-//@     modifies vHas(arg0.State), vVal(arg0.State)
+//@     modifies vHas(arg0.State), vVal(arg0.State), sgas(arg0.State)
+//@     grants sgas(arg0.State) >= old(sgas(arg0.State))                                                     // C02.gas-monotone
 //@     grants sessOpen(arg0.State) && bHas(arg0.State) == old(bHas(arg0.State)) && bVal(arg0.State) == old(bVal(arg0.State)) && wfState(arg0.State)   // C06.handler-frame
 //@     forbids (*storage.State).BeginTxSession (*storage.State).CommitTxSession (*storage.State).DiscardTxSession (storage.State).Write (*storage.State).Commit (*storage.State).WithoutGas (*storage.State).WithGasStore (*storage.State).LoadVersion (*storage.ChainState).Set (*storage.ChainState).Delete (*storage.ChainState).Commit   // C06.handler-frame
 //@   method ProcessFee
 //@     requires validatedTx(self, arg1)                                                                    // C04.validated
+//@     requires 0 <= arg2 && arg2 <= sgas(arg0.State)                                                        // C02.gas-start
 //@     requires sessOpen(arg0.State) && wfState(arg0.State)                                                // C06.session
-//@     modifies vHas(arg0.State), vVal(arg0.State)
+//@     modifies vHas(arg0.State), vVal(arg0.State), sgas(arg0.State)
+//@     grants sgas(arg0.State) >= old(sgas(arg0.State))                                                     // C02.gas-monotone
 //@     grants sessOpen(arg0.State) && bHas(arg0.State) == old(bHas(arg0.State)) && bVal(arg0.State) == old(bVal(arg0.State)) && wfState(arg0.State)   // C06.handler-frame
 //@     forbids (*storage.State).BeginTxSession (*storage.State).CommitTxSession (*storage.State).DiscardTxSession (storage.State).Write (*storage.State).Commit (*storage.State).WithoutGas (*storage.State).WithGasStore (*storage.State).LoadVersion (*storage.ChainState).Set (*storage.ChainState).Delete (*storage.ChainState).Commit   // C06.handler-frame
 
@@ -61,3 +66,20 @@ package action
 //@ assume func (*RawTx).RawBytes
 //@   modifies nothing
 //@   ensures result == rawBytesOf(*t)
+
+// ---------------------------------------------------------------- fee handling (C02, C03, C18)
+//
+// ctxFeeOK: what the fee functions need from the context: stores present, the fee option set up, the fee
+// currency registered under its own name (option invariants established at genesis: A-GENESIS).
+//@ ghost func ctxFeeOK(ctx *Context) bool = ctx != nil && ctx.State != nil && ctx.State.gc != nil && ctx.Balances != nil && ctx.Balances.State == ctx.State && ctx.FeePool != nil && ctx.FeePool.feeOpt != nil && curOK(ctx.Currencies)
+
+//@ func BasicFeeHandling
+//@   safety C18
+//@   requires ctxFeeOK(ctx)                                                                                                  // C18.ctx
+//@   requires 0 <= start && start <= sgas(ctx.State) && signatureCnt >= 0 && size >= 0                                                     // C02.gas-start
+//@   requires sgas(ctx.State) + signatureCnt * 5000 + size * 20 <= 9223372036854775807 && signatureCnt * 5000 <= 9223372036854775807 && size * 20 <= 9223372036854775807   // C02.gas-range (A-GASRANGE: the block gas counter stays within int64)
+//@   requires len(signedTx.Signatures) >= 1                                                                                  // C18.validated-facts
+//@   requires signedTx.Fee.Price.Currency == ctx.FeePool.feeOpt.FeeCurrency.Name && has(ctx.Currencies.nameMap, signedTx.Fee.Price.Currency) && signedTx.Fee.Price.Value >= 0   // C18.validated-facts
+//@   ensures result0 ==> result1.GasUsed >= 0 ==> forall c string :: balTotal(ctx.Balances)[c] <= old(balTotal(ctx.Balances))[c]       // C02.fee-conserve
+//@   ensures result0 ==> forall k string :: bal(ctx.Balances)[k] < old(bal(ctx.Balances))[k] ==> k == balKey(bytes(pkAddr(signedTx.Signatures[0].Signer.KeyType, signedTx.Signatures[0].Signer.Data)), signedTx.Fee.Price.Currency)   // C03.fee-payer-is-signer
+//@   ensures result0 ==> feeTotal(ctx.FeePool) - old(feeTotal(ctx.FeePool)) == old(balTotal(ctx.Balances))[signedTx.Fee.Price.Currency] - balTotal(ctx.Balances)[signedTx.Fee.Price.Currency]   // C02.fee-conserve
